@@ -39,7 +39,9 @@ Interp(s, t) == LET n == Len(s.v)  off == t - s.t0 IN
 RECURSIVE Super(_, _)
 Super(ss, t) == IF ss = <<>> THEN 0 ELSE Interp(Head(ss), t) + Super(Tail(ss), t)
 Obs(ss, t) == IF Kind = "system" THEN 2 * Super(ss, t - 2) ELSE Super(ss, t)
-Wave(ss, t0, n) == [k \in 1..n |-> Obs(ss, t0 + 2 * (k - 1))]
+ObsSt(ss, t, st) == IF Kind = "system" THEN 2 * Super(ss, t - st) ELSE Super(ss, t)     \* front end delays by one sample of the grid
+WaveSt(ss, t0, n, st) == [k \in 1..n |-> ObsSt(ss, t0 + st * (k - 1), st)]
+Wave(ss, t0, n) == WaveSt(ss, t0, n, 2)
 WaveOf(ss, s) == Wave(ss, s.t0, Len(s.v))
 Proc(s) == WaveOf(<<s>>, s)                                  \* AntennaSystem.signals[k]
 Trig(w) == \E k \in 1..Len(w) : w[k] >= Thr
@@ -57,6 +59,11 @@ Receive(s) == /\ Len(sigs) < MaxSigs
               /\ last' = [op |-> "Receive", s |-> s]
               /\ UNCHANGED <<shown, trigs, gen, ngen>>
 
+(* receive([good, bad]): the second polarized component is refused (undefined value type): nothing may be stored *)
+ReceiveFail(s) == /\ Len(sigs) < MaxSigs
+                  /\ last' = [op |-> "ReceiveFail", s |-> s]
+                  /\ UNCHANGED <<sigs, shown, trigs, gen, ngen>>
+
 Master(made) == IF made /\ NeedsNoise THEN <<ngen + 1, ngen + 1>> ELSE <<gen, ngen>>
 
 AllWaveforms == LET sh == CatchShown  m == Master(Len(sh) > Len(shown)) IN
@@ -72,16 +79,16 @@ Waveforms(hit) == LET sh == CatchShown  tr == CatchTrigs(sh)  m == Master(Len(sh
                               res |-> [k \in 1..Len(tr) |-> tr[k]], waves |-> sh, gen |-> m[1]]
                   /\ UNCHANGED sigs
 
-FullWaveform(w, during) == LET m == Master(TRUE)  v == Wave(sigs, w[1], w[2]) IN
+FullWaveform(w, during) == LET m == Master(TRUE)  v == WaveSt(sigs, w[1], w[2], w[3]) IN
                    /\ gen' = m[1] /\ ngen' = m[2]
-                   /\ last' = [op |-> IF during THEN "IsHitDuring" ELSE "FullWaveform", t0 |-> w[1], n |-> w[2],
+                   /\ last' = [op |-> IF during THEN "IsHitDuring" ELSE "FullWaveform", t0 |-> w[1], n |-> w[2], st |-> w[3],
                                res |-> v, trig |-> Trig(v), gen |-> m[1]]
                    /\ UNCHANGED <<sigs, shown, trigs>>
 
 MakeNoise(w) == LET m == Master(TRUE) IN
                 /\ Noisy
                 /\ gen' = m[1] /\ ngen' = m[2]
-                /\ last' = [op |-> "MakeNoise", t0 |-> w[1], n |-> w[2], gen |-> m[1]]
+                /\ last' = [op |-> "MakeNoise", t0 |-> w[1], n |-> w[2], st |-> w[3], gen |-> m[1]]
                 /\ UNCHANGED <<sigs, shown, trigs>>
 
 Clear(reset) == /\ sigs' = <<>> /\ shown' = <<>> /\ trigs' = <<>>
@@ -90,6 +97,7 @@ Clear(reset) == /\ sigs' = <<>> /\ shown' = <<>> /\ trigs' = <<>>
                 /\ last' = [op |-> "Clear", reset |-> reset]
 
 Next == \/ \E s \in Sigs : Receive(s)
+        \/ \E s \in Sigs : ReceiveFail(s)
         \/ AllWaveforms
         \/ \E h \in BOOLEAN : Waveforms(h)
         \/ \E w \in Windows, d \in BOOLEAN : FullWaveform(w, d)
@@ -104,7 +112,7 @@ OnePerSignal  == last.op \in {"AllWaveforms", "Waveforms", "IsHit"} =>
                     /\ \A k \in 1..Len(sigs) : Len(shown[k]) = Len(sigs[k].v)
 TriggeredAreExactlyThose == \A k \in 1..Len(trigs) : trigs[k] = Trig(shown[k])
 FullIsSuperposition == last.op \in {"FullWaveform", "IsHitDuring"} =>
-                          /\ last.res = Wave(sigs, last.t0, last.n)
+                          /\ last.res = WaveSt(sigs, last.t0, last.n, last.st)
                           /\ last.trig = Trig(last.res)
 Stale == \E k \in 1..Len(shown) : shown[k] # WaveOf(sigs, sigs[k])
 ReportedIsSuperposition == ~Stale                     \* violated by D9 (query - receive(overlap) - query)
